@@ -589,3 +589,44 @@ func TestC03_R_WhiteSpaceNamesThroughBothSelectorForms(t *testing.T) {
 		}
 	}
 }
+
+// Paths of hundreds of segments: a chain of directories 300 levels deep (every 37th one sharded), resolved to the
+// directory at each of the deeper levels and to the file at the bottom.
+func TestC03_R_VeryDeepPaths(t *testing.T) {
+	const depth = 300
+	cur := c03File(11)
+	var nodes []*tnode
+	for level := depth; level >= 1; level-- {
+		cur = c03Dir(level%37 == 0, map[string]*tnode{"d": cur, "other": c03File(2)})
+		nodes = append([]*tnode{cur}, nodes...)
+	}
+	root := nodes[0]
+	st := NewStore()
+	if err := root.build(st); err != nil {
+		t.Fatal(err)
+	}
+	for _, k := range []int{1, 100, 253, 254, 255, 256, 257, 258, 299, 300} {
+		segs := make([]string, k)
+		for i := range segs {
+			segs[i] = "d"
+		}
+		for _, lead := range []string{"", "/"} {
+			path := lead + strings.Join(segs, "/")
+			ms, _, err := c03Walk(st, root.Root, path, "match", false)
+			if err != nil || len(ms) != 1 || ms[0].Path != strings.Join(segs, "/") {
+				t.Fatalf("C03: path of %d segments (leading slash %q) into a %d-level tree: %d matches, err %v", k, lead, depth, len(ms), err)
+			}
+			target := nodes[0]
+			for i := 0; i < k; i++ {
+				target = target.Kids["d"]
+			}
+			if err := c03Describe(ms[0].Node, target); err != nil {
+				t.Fatalf("C03: path of %d segments: matched node is not the named entity: %v", k, err)
+			}
+		}
+		bogus := strings.Join(segs, "/") + "/nope"
+		if ms, _, err := c03Walk(st, root.Root, bogus, "match", false); err != nil || len(ms) != 0 {
+			t.Fatalf("C03: path of %d segments naming no entry: %d matches, err %v", k+1, len(ms), err)
+		}
+	}
+}
